@@ -104,8 +104,25 @@ def check_generate_mesh(d, out):
     # spacing laws: spanwise stations of the left half (tip first) and chordwise fractions
     eta = -full[0, :ny2, 1] / (0.5 * span)
     # CRM: y is tabulated against eta with ~7 digits (measured 5e-7), hence the looser absolute tolerance
-    out.close("crm/span_spacing_blend" if crm else "span_spacing_blend", eta, blend_span(ny2, float(d["span_cos"])), rtol=0.0,
-              atol=(1e-5 if crm else RT), scale=1.0)
+    # (the uCRM table lists eta with 3 digits only: its y follows the table, checked below, not the blend law itself)
+    if d["wing_type"] != "uCRM_based":
+        out.close("crm/span_spacing_blend" if crm else "span_spacing_blend", eta, blend_span(ny2, float(d["span_cos"])), rtol=0.0,
+                  atol=(1e-5 if crm else RT), scale=1.0)
+    if crm:
+        # documented construction, restated: leading edge and chord of every station are the tabulated slices (inches)
+        # interpolated linearly at the blended eta; jig shapes drop the z deflection
+        from openaerostruct.geometry.CRM_definitions import get_crm_points
+
+        raw = np.array(get_crm_points(d["wing_type"]), float)
+        lins = blend_span(ny2, float(d["span_cos"]))[::-1]  # root -> tip
+        flat = "jig" in d["wing_type"] or d["wing_type"] == "CRM"
+        le = np.stack([np.interp(lins, raw[:, 0], raw[:, 1]), np.interp(lins, raw[:, 0], raw[:, 2]),
+                       np.zeros(ny2) if flat else np.interp(lins, raw[:, 0], raw[:, 3])], axis=1) * 0.0254
+        ch = np.interp(lins, raw[:, 0], raw[:, 5]) * 0.0254
+        right = full[:, ny2 - 1:, :]
+        out.close("crm/leading_edge_interpolates_table", right[0], le, rtol=1e-12, scale=ext)
+        out.close("crm/chord_interpolates_table", right[-1, :, 0] - right[0, :, 0], ch, rtol=1e-12, scale=ext)
+        out.close("crm/trailing_edge_same_y_z", right[-1, :, 1:], le[:, 1:], rtol=1e-12, scale=ext)
     w = (full[:, :, 0] - full[:1, :, 0]) / (full[-1:, :, 0] - full[:1, :, 0])
     out.close("chord_spacing_blend", w, np.broadcast_to(blend_chord(nx, float(d["chord_cos"]))[:, None], (nx, ny)), rtol=0.0,
               atol=1e-11, scale=1.0)
@@ -123,7 +140,7 @@ def check_generate_mesh(d, out):
         if d["wing_type"] == "CRM":
             out.true("crm/ignored_keys_warning", any("ignored for the CRM" in str(x.message) for x in w_half),
                      "no warning that span/root_chord are ignored")
-        if "alpha" not in d["wing_type"]:
+        if "jig" in d["wing_type"] or d["wing_type"] == "CRM":
             out.le("crm/jig_flat", float(np.max(np.abs(full[:, :, 2]))), 0.0)
     off = d.get("offset")
     if off is not None and any(o != 0.0 for o in off):
